@@ -1,5 +1,5 @@
 """C11 -- suspend/resume and directed switches hand control exactly as documented."""
-from vr import Obl
+from vr import Obl, deepen
 
 META = {
     "explanation": "E2/E1: each directed-switch primitive (real front end in self.c/thread.c, real inline switch code, real post-switch callback) up to the first instruction of the target, "
@@ -25,6 +25,7 @@ def obligations(tier):
                      encodes=["ABT_" + nm, "ABTI_ythread_yield_to", "ABTI_ythread_thread_yield_to", "ABTI_ythread_suspend_to", "ABTI_ythread_resume_yield_to", "ABTI_ythread_resume_suspend_to", "ABTI_ythread_exit_to", "ABTI_ythread_resume_exit_to",
                               "ABTI_ythread_switch_to_sibling_internal", "ABTI_ythread_jump_to_sibling_internal"],
                      bounds="one directed switch between 2 ULTs", symbolic="target's pool (same/other), started or not, whether another stream pops it meanwhile", timeout=300))
+    o += deepen([x for x in o if x.hooks], tier)
     return o
 
 MANIFEST_ENTRY = {
